@@ -7,6 +7,7 @@
   compares time stamps exactly (DESIGN.md §12).
 -/
 import ZvtVerif.Proofs.ClientLemmas
+import ZvtVerif.Proofs.Pace
 import ZvtVerif.Generated
 namespace Zvt.C10
 open Zvt
@@ -56,6 +57,24 @@ theorem exchange_bounded_slow {σ ρ : Type} (cfg : Cfg) (seqName : String) (cmd
     (step : σ → Item → Step σ ρ) (w : World) (s : σ) :
     (runOp cfg seqName cmd timeout step w s).2.now ≤ w.now + ATTEMPTS * (THROTTLE + TIMEOUT + ITEM_FUEL * timeout) :=
   runOp_now_slow cfg seqName cmd timeout step w s
+
+/-- **no pause is lost or counted twice**: what one `read_packet` waits for plus what is still owed afterwards equals
+what was owed before (packet, end of stream, or silence) — the slow terminal's time is accounted for exactly. -/
+theorem pauses_sat_out_once (c : ConnSt) :
+    (connRead c).2.1 + ((connRead c).2.2.marks.sum + (connRead c).2.2.eofOwed) = c.marks.sum + c.eofOwed :=
+  connRead_conserves c
+
+/-- the pause marks stay parallel to the bytes on the wire through sending and reading. -/
+theorem marks_parallel (c : ConnSt) (b : Bytes) (h : c.WF) : (c.put b).WF ∧ (connRead c).2.2.WF :=
+  ⟨put_wf c b h, connRead_wf c h⟩
+
+/-- **the time-out cuts off silence, not slowness**: in the middle of an exchange a `next()` whose deadline leaves room
+for the pauses the terminal still owes ends in `hang` only if the terminal really sends nothing (the per-packet
+deadline starts anew with every `next()`: `runItems` passes `now + timeout`). -/
+theorem slow_terminal_not_cut_off (d : SeqDesc) (dl : Nat) (w : World) (c : ConnSt)
+    (hfit : w.now + w.gap * (c.marks.sum + c.eofOwed) ≤ dl)
+    (h : (seqNext d dl w c .looping).1 = NextOut.hang) : (connRead c).1 = .hang :=
+  looping_hang_is_silence d dl w c hfit h
 
 /-- budget of one exchange against a terminal of pace `g`. -/
 def paceBudget (g timeout : Nat) : Nat := ATTEMPTS * attemptBudget (if g = 0 then timeout else ITEM_FUEL * timeout)
